@@ -384,3 +384,101 @@ theorem inv_run {s : State} (hi : Inv s) (ops : List Op) : Inv (run s ops) := by
   | cons op ops ih => exact ih (inv_step hi op)
 
 end FxVerif.Proofs.C05
+
+namespace FxVerif.Proofs.C05
+open FxVerif.Gen.C05 FxVerif.Model.C05 List
+
+/-! ## ledger -/
+
+theorem getBal_setBal (b : Bal) (k k' : Addr × Token) (v : Nat) :
+    getBal (setBal b k v) k' = if k' = k then v else getBal b k' := by
+  simp [getBal, setBal]
+
+theorem getBal_addBal (b : Bal) (k k' : Addr × Token) (v : Nat) :
+    getBal (addBal b k v) k' = if k' = k then getBal b k + v else getBal b k' := by
+  simp [addBal, getBal_setBal]
+
+theorem getBal_subBal (b : Bal) (k k' : Addr × Token) (v : Nat) :
+    getBal (subBal b k v) k' = if k' = k then getBal b k - v else getBal b k' := by
+  simp [subBal, getBal_setBal]
+
+/-- total credited to `(who, t)` by a coin list -/
+def creditOf (t : Token) (cs : List (Token × Nat)) : Nat := ((cs.filter (fun c => c.1 = t)).map (·.2)).sum
+
+theorem getBal_creditAll (who : Addr) (cs : List (Token × Nat)) (b : Bal) (a : Addr) (t : Token) :
+    getBal (creditAll who cs b) (a, t) = getBal b (a, t) + (if a = who then creditOf t cs else 0) := by
+  unfold creditAll
+  induction cs generalizing b with
+  | nil => simp [creditOf]
+  | cons c cs ih =>
+    simp only [foldl_cons]
+    rw [ih]
+    by_cases hpos : 0 < c.2
+    · simp only [hpos, if_true, getBal_addBal]
+      by_cases ha : a = who
+      · subst ha
+        by_cases ht : c.1 = t
+        · subst ht; simp [creditOf, filter_cons]; omega
+        · have : ¬ (a, t) = (a, c.1) := by intro h; exact ht (by injection h with _ h2; exact h2.symm)
+          simp [creditOf, filter_cons, ht, this]
+      · have : ¬ (a, t) = (who, c.1) := by intro h; exact ha (by injection h)
+        simp [ha, this]
+    · have h0 : c.2 = 0 := by omega
+      simp only [hpos, if_false]
+      by_cases ha : a = who
+      · by_cases ht : c.1 = t
+        · simp [creditOf, filter_cons, ht, h0, ha]
+        · simp [creditOf, filter_cons, ht, ha]
+      · simp [ha]
+
+/-! ## the settlement log only grows -/
+
+theorem cleanupCalls_settled (s : State) :
+    (cleanupCalls s).settled = s.settled ++ (expiredCalls (heightOf callCleanupSrc s) s.calls).map
+      (fun c => (⟨true, c.nonce, .refunded, c.refund, c.tokens⟩ : Settle)) := by
+  unfold cleanupCalls
+  obtain ⟨_, _, _, _, _, _, h7⟩ := foldl_refundCall (expiredCalls (heightOf callCleanupSrc s) s.calls)
+    { s with calls := if callCleanupDeletes then keptCalls (heightOf callCleanupSrc s) s.calls else s.calls }
+  simp only [h7]
+
+theorem cleanup_settled (s2 : State) :
+    ∃ l, (cleanupCalls (cleanupBatches s2)).settled = s2.settled ++ l := by
+  rw [cleanupCalls_settled]
+  have : (cleanupBatches s2).settled = s2.settled := by simp [cleanupBatches, cancelBatches]
+  rw [this]
+  exact ⟨_, rfl⟩
+
+theorem settled_grows (s : State) (op : Op) : ∃ l, (step s op).1.settled = s.settled ++ l := by
+  cases op with
+  | send a d t am f => simp only [step]; unfold doSend; (repeat' split) <;> exact ⟨[], by simp⟩
+  | cancel id who =>
+    simp only [step]; unfold doCancel
+    repeat' split
+    all_goals first | (refine ⟨[], ?_⟩; simp; done) | exact ⟨_, rfl⟩
+  | incFee id who t add => simp only [step]; unfold doIncFee; (repeat' split) <;> exact ⟨[], by simp⟩
+  | reqBatch t mf bf fr => simp only [step]; unfold doReqBatch; simp only; (repeat' split) <;> exact ⟨[], by simp⟩
+  | bridgeCall a r to d m cs => simp only [step]; unfold doBridgeCall; simp only; (repeat' split) <;> exact ⟨[], by simp⟩
+  | setParams p => simp only [step]; (repeat' split) <;> exact ⟨[], by simp⟩
+  | block n => exact ⟨[], by simp [step]⟩
+  | exec n =>
+    simp only [step]; unfold doExec
+    repeat' split
+    all_goals first | (refine ⟨[], ?_⟩; simp; done) | exact ⟨_, rfl⟩ | (refine ⟨_, ?_⟩; simp [refundCall]; rfl)
+  | observe h ev =>
+    simp only [step]; unfold doObserve
+    simp only
+    cases ev with
+    | other => simp only [handleEvent]; exact cleanup_settled _
+    | result c ok => simp only [handleEvent]; exact cleanup_settled _
+    | batch t n =>
+      simp only [handleEvent]
+      cases hf : (s.batches.find? (fun b => decide (b.token = t ∧ b.nonce = n))) with
+      | none => exact ⟨[], by simp⟩
+      | some b =>
+        simp only []
+        obtain ⟨l, hl⟩ := cleanup_settled (executeBatch { s with eventNonce := s.eventNonce + 1, obsExt := h, obsFx := s.fxHeight } b)
+        refine ⟨b.txs.map (fun tx => (⟨false, tx.id, .executed, 0, [(tx.token, tx.amount + tx.fee)]⟩ : Settle)) ++ l, ?_⟩
+        simp only [hl]
+        simp [executeBatch, cancelBatches]
+
+end FxVerif.Proofs.C05
